@@ -1,6 +1,5 @@
 import random
 import string
-import sys
 from datetime import datetime
 from random import choices
 from typing import Iterator
@@ -52,14 +51,24 @@ def random_floats(lower: float = -1e-6, upper: float = 1e6) -> Iterator:
         yield random.uniform(lower, upper)
 
 
-def random_ints(lower: int = -sys.maxsize, upper: int = sys.maxsize) -> Iterator[int]:
+def random_ints(lower: int | None = None, upper: int | None = None) -> Iterator[int]:
     # yield lower
     # yield upper
     # TODO: maybe first generate_true some smaller ints
 
+    if lower is not None and upper is not None and lower > upper:
+        return
+
+    # the windows grow around the point of [lower, upper] that is nearest to zero
+    center = 0
+    if lower is not None and lower > 0:
+        center = lower
+    if upper is not None and upper < 0:
+        center = upper
+
     def between(limit: int) -> Iterator[int]:
-        low = max(-limit, lower)
-        high = min(limit, upper)
+        low = center - limit if lower is None else max(center - limit, lower)
+        high = center + limit if upper is None else min(center + limit, upper)
         if high >= low:
             yield from (random.randint(low, high) for _ in range(0, limit))
 
